@@ -66,6 +66,11 @@ func (e *Engine) call(f *ssa.Function, args []Val, env []Val) Val {
 	if r, ok := e.intrinsic(f, args); ok {
 		return r
 	}
+	return e.callBody(f, args, env)
+}
+
+// callBody interprets f's SSA body (no intrinsic lookup).
+func (e *Engine) callBody(f *ssa.Function, args []Val, env []Val) Val {
 	if len(f.Blocks) == 0 {
 		e.unsupported("call of function without body: %s", f.String())
 	}
